@@ -128,22 +128,83 @@ theorem step_romEq (c : Cpu) : RomEq c.arch.bus (step c).1.arch.bus := stepArch_
 theorem executeTimed_romEq (c : Cpu) (e : Option UInt32) : RomEq c.arch.bus (executeTimed c e).1.arch.bus :=
   stepArch_romEq c.arch
 
-theorem runEvent_romEq (c : Cpu) (e : Event) (hr : e.isSetRom = false) : RomEq c.arch.bus (runEvent c e).arch.bus := by
+theorem loadBin_rom (b : Bus) (file : Option (List UInt8)) (org : UInt16) (b' : Bus) (n : Nat)
+    (h : b.loadBin file org = some (.ok (b', n))) : b'.rom = b.rom := by
+  unfold Bus.loadBin at h
+  split at h
+  · simp at h
+  · split at h
+    · simp at h
+    · split at h
+      · simp only [Option.some.injEq, Except.ok.injEq, Prod.mk.injEq] at h
+        rw [← h.1]
+      · simp at h
+
+theorem clearMemSlice_rom (b : Bus) (s e : Nat) (b' : Bus) (h : b.clearMemSlice s e = some b') : b'.rom = b.rom := by
+  unfold Bus.clearMemSlice at h
+  split at h
+  · simp only [Option.some.injEq] at h; rw [← h]
+  · simp at h
+
+/-- the ROM declaration is touched by `set_romspace` only: not by any step, request, store, load (successful,
+    failed or refused), clear, observation, clock setting or register assignment -/
+theorem runEvent_rom_decl (c : Cpu) (e : Event) (hr : e.isSetRom = false) : (runEvent c e).arch.bus.rom = c.arch.bus.rom := by
   cases e with
   | setRom s t => simp [Event.isSetRom] at hr
+  | step => exact (step_romEq c).rom
+  | timed e => exact (executeTimed_romEq c e).rom
+  | int b => rfl
+  | nmi => rfl
+  | writeByte a v => exact (RomEq.writeByte _ _ _).rom
+  | writeWord a w => exact (RomEq.writeWord _ _ _).rom
+  | load file org =>
+    show (c.loadBin file org).arch.bus.rom = _
+    unfold Cpu.loadBin
+    split
+    · rename_i b n h; exact loadBin_rom _ _ _ _ _ h
+    · rfl
+  | clear s t =>
+    show (c.clearSlice s t).arch.bus.rom = _
+    unfold Cpu.clearSlice
+    split
+    · rename_i b h; exact clearMemSlice_rom _ _ _ _ h
+    · rfl
+  | observe => rfl
+  | setFreq n => rfl
+  | setSliceDuration d => rfl
+  | hostReg w v => rfl
+
+theorem run_rom_decl (c : Cpu) (es : List Event) (hr : ∀ e ∈ es, e.isSetRom = false) :
+    (run c es).arch.bus.rom = c.arch.bus.rom := by
+  induction es generalizing c with
+  | nil => rfl
+  | cons e es ih =>
+    show (run (runEvent c e) es).arch.bus.rom = _
+    rw [ih _ (fun x hx => hr x (by simp [hx])), runEvent_rom_decl c e (hr e (by simp))]
+
+theorem runEvent_romEq (c : Cpu) (e : Event) (hr : e.isSetRom = false) (ho : e.overwrites = false) :
+    RomEq c.arch.bus (runEvent c e).arch.bus := by
+  cases e with
+  | setRom s t => simp [Event.isSetRom] at hr
+  | load file org => simp [Event.overwrites] at ho
+  | clear s t => simp [Event.overwrites] at ho
   | step => exact step_romEq c
   | timed e => exact executeTimed_romEq c e
   | int b => exact RomEq.refl _
   | nmi => exact RomEq.refl _
   | writeByte a v => exact RomEq.writeByte _ _ _
   | writeWord a w => exact RomEq.writeWord _ _ _
+  | observe => exact RomEq.refl _
+  | setFreq n => exact RomEq.refl _
+  | setSliceDuration d => exact RomEq.refl _
+  | hostReg w v => exact RomEq.refl _
 
-theorem run_romEq (c : Cpu) (es : List Event) (hr : ∀ e ∈ es, e.isSetRom = false) :
+theorem run_romEq (c : Cpu) (es : List Event) (hr : ∀ e ∈ es, e.isSetRom = false ∧ e.overwrites = false) :
     RomEq c.arch.bus (run c es).arch.bus := by
   induction es generalizing c with
   | nil => exact RomEq.refl _
   | cons e es ih =>
-    exact (runEvent_romEq c e (hr e (by simp))).trans (ih _ (fun x hx => hr x (by simp [hx])))
+    exact (runEvent_romEq c e (hr e (by simp)).1 (hr e (by simp)).2).trans (ih _ (fun x hx => hr x (by simp [hx])))
 
 theorem run_append (c : Cpu) (es1 es2 : List Event) : run c (es1 ++ es2) = run (run c es1) es2 := by
   simp [run, List.foldl_append]
